@@ -378,3 +378,9 @@ def asyncify_rule(ctx: Ctx, rule="R-C18-FLOW") -> None:
     tests = [t for t in g.nodes if t.kind == "test"]
     ok = len(tests) >= 1 and any("iscoroutinefunction(fn)" in t.label for t in tests) and any(dotted(n.ast.value) == "fn" for n in rr) and any(dotted(n.ast.value) == "inner" for n in rr)
     ctx.check(ok, rule, f, "coroutine functions are used as they are, others wrapped", "iscoroutinefunction(fn) -> fn, else inner", "asyncify no longer returns coroutine functions unchanged / wraps the others", instance="asyncify dispatch")
+    # which predicate: asyncio's (it also accepts objects marked with asyncio's _is_coroutine protocol, e.g. callable provider objects and mocks; inspect's does not)
+    preds = sorted({ctx.prog.resolve_name(f.module, dotted(c.func) or "") or (dotted(c.func) or "") for t in tests for c in ast.walk(t.ast)
+                    if isinstance(c, ast.Call) and (dotted(c.func) or "").endswith("iscoroutinefunction")})
+    ctx.check(preds == ["asyncio.iscoroutinefunction"], rule, f, "coroutine-function test is asyncio.iscoroutinefunction", "the predicate that also honours asyncio's marker protocol",
+              f"asyncify decides 'already a coroutine function' with {preds}: callables that only asyncio.iscoroutinefunction recognises (objects carrying asyncio's coroutine marker) are "
+              "wrapped as if synchronous - calling them in the executor returns an un-awaited coroutine object, which is what the actor / the dependent provider then receives", instance="asyncify predicate")
